@@ -89,6 +89,15 @@ Theorem clip_outside_transparent :
     nth_error (snd (merge_image o ms cols true)) k = Some (create_px o).
 Proof. exact merge_image_global_outside. Qed.
 
+(* An empty limit is a limit, not "no limit".  WMS: with a global coverage whose mask excludes every pixel (an
+   empty geometry, or one that misses the request: image_mask_from_geom without polygons masks everything) the
+   whole answer is background, whatever the layers are. *)
+Theorem empty_coverage_shows_nothing :
+  forall o ms cols,
+    bg_ok o -> Forall (fun cb : column * bool => snd cb = true) cols ->
+    snd (merge_image o ms cols true) = map (fun _ => create_px o) cols.
+Proof. exact merge_image_empty_coverage. Qed.
+
 (* Per-layer clip (LimitedLayer): outside its mask a clipped layer leaves the pixel under it untouched, wherever
    it sits in the stack and on every path of the loop (alpha_composite, Image.blend for opacity < 1, paste);
    for a result without alpha channel the pixel under it is a valid opaque pixel.  (Holds for /repo since the
@@ -183,6 +192,17 @@ Theorem tile_limits_come_from_callback :
     authorize_tile key n (Some r) = T_ok lims -> In g lims ->
     r_lim r = Some g \/ exists p, assoc n (r_layers r) = Some p /\ p_lim p = Some g.
 Proof. exact tile_limits_from_callback. Qed.
+
+(* ... and for tiles and WMTS feature info: a non-empty list of limits whose intersection contains and intersects
+   nothing (e.g. it is empty) gives the empty tile without a load and no feature info - it is never read as
+   "no limit" (T_ok [] is the only case that is served unclipped). *)
+Theorem empty_tile_limit_shows_nothing :
+  forall lname infos cb cont inter pt_in gs gs',
+    authorize_tile Ft_tile lname cb = T_ok gs -> gs <> [] -> cont gs = false -> inter gs = false ->
+    authorize_tile Ft_fi lname cb = T_ok gs' -> gs' <> [] -> pt_in gs' = false -> infos <> [] ->
+    tile_render lname cb cont inter = TO_empty /\ tile_loads (tile_render lname cb cont inter) = false /\
+    wmts_featureinfo lname infos cb pt_in = FI_ok [].
+Proof. exact empty_tile_limit_l. Qed.
 
 (* Feature info (WMS): every info source that is queried belongs to a layer permitted for 'featureinfo'; if that
    layer is limited to g the query point lies in g; if the request is limited globally the point lies in the
